@@ -600,7 +600,7 @@ func main() {
 		}
 	} else if o.Prop == "C18" || o.Prop == "" {
 		g.exhaustive()
-		for i := 0; i < o.Scale(4000, 150000); i++ {
+		for i := 0; i < o.Scale(4000, 250000); i++ {
 			g.history()
 		}
 	}
